@@ -36,6 +36,12 @@ TARGETS = [
     ("contentHeader", "ContentPackHeader", "src/common/headers/content_pack.rs"),
     ("directoryHeader", "DirectoryPackHeader", "src/common/headers/directory_pack.rs"),
     ("manifestHeader", "ManifestPackHeader", "src/common/headers/manifest_pack.rs"),
+    ("clusterHeader", "ClusterHeader", "src/common/headers/cluster.rs"),
+]
+
+# reader-only structures (the writer is elsewhere and is covered by extract_funcs.py)
+READER_ONLY = [
+    ("indexHeader", "IndexHeader", "src/reader/directory_pack/index.rs"),
 ]
 
 # what the model was written from (kept when the source can no longer be translated)
@@ -47,6 +53,8 @@ PINNED = {
     "contentHeader": [("content_ptr_pos", 8), ("cluster_ptr_pos", 8), ("content_count", 4), ("cluster_count", 4), ("pad0", 12), ("free_data", 24)],
     "directoryHeader": [("index_ptr_pos", 8), ("entry_store_ptr_pos", 8), ("value_store_ptr_pos", 8), ("index_count", 4), ("entry_store_count", 4), ("value_store_count", 1), ("pad0", 3), ("free_data", 24)],
     "manifestHeader": [("pack_count", 2), ("value_store_posinfo", 8), ("pad0", 26), ("free_data", 24)],
+    "clusterHeader": [("compression", 1), ("offset_size", 1), ("blob_count", 2)],
+    "indexHeader": [("store_id", 4), ("entry_count", 4), ("entry_offset", 4), ("free_data", 4), ("index_property", 1), ("name", 0)],
 }
 
 BASE = {"u8": 1, "u16": 2, "u32": 4, "u64": 8}
@@ -108,6 +116,12 @@ def type_widths():
                 if ok:
                     w[k] = tot
     w = {k: v for k, v in w.items() if isinstance(v, int)}
+    try:
+        m = re.search(r"impl Serializable for CompressionType \{.*?ser\.write_(u8|u16|u32|u64)\(", read("src/common/compression_type.rs"), re.S)
+        if m:
+            w["CompressionType"] = BASE[m.group(1)]
+    except Exception as e:  # noqa
+        notes.append("CompressionType: " + type(e).__name__)
     w["Uuid"] = 16  # uuid crate: 16 bytes (bases/parsing.rs `impl SizedParsable for Uuid`)
     try:
         m = re.search(r"impl SizedParsable for Uuid \{\s*const SIZE: usize = ([0-9]+);", read("src/bases/parsing.rs") + read("src/bases/types/mod.rs"))
@@ -219,6 +233,10 @@ def reader_layout(body, widths):
                 nxt = sts[k] if k < len(sts) else ""
                 pm = re.fullmatch(r"parser\.skip\(([0-9]+) - %s\.len\(\)\)\?" % name, nxt)
                 if not pm:
+                    # an unpadded p-string (variable length): width 0 in the table; must be the last field
+                    if nxt.startswith("Ok("):
+                        out.append((name, 0))
+                        continue
                     raise ValueError("p-string without its padding skip: " + nxt)
                 k += 1
                 out.append((name, 1 + int(pm.group(1))))
@@ -273,6 +291,21 @@ def main():
             ser = par = PINNED[lname]
         status[lname] = {"status": st, "file": path, "writer": ser, "reader": par}
         lines.append(f"def {lname}Ser : List (String × Nat) := {lean_list(ser)}")
+        lines.append(f"def {lname}Par : List (String × Nat) := {lean_list(par)}")
+        lines.append("")
+    for lname, sname, path in READER_ONLY:
+        st = "extracted"
+        par = PINNED[lname]
+        try:
+            src = read(path)
+            rb = body_of(src, r"impl Parsable for %s \{" % sname)
+            par = reader_layout(rb, widths)
+            if par != PINNED[lname]:
+                st = "extracted-changed"
+        except Exception as e:  # noqa
+            st = "not-derived:" + (str(e) or type(e).__name__)[:160]
+            par = PINNED[lname]
+        status[lname] = {"status": st, "file": path, "reader": par}
         lines.append(f"def {lname}Par : List (String × Nat) := {lean_list(par)}")
         lines.append("")
     lines.append("end Jubako.Generated")
